@@ -135,6 +135,10 @@ pub enum SizeRel {
     Same,
     ColsPlus1,
     RowsPlus1,
+    /// one row fewer than the destination, same width (an implementation that only walks the
+    /// source's rows would stop early without noticing)
+    RowsMinus1,
+    ColsMinus1,
     Transposed,
     Flat,
 }
@@ -222,6 +226,16 @@ pub fn src_dims(rel: SizeRel, c: usize, r: usize) -> (usize, usize) {
                 (c, r + 1)
             }
         }
+        SizeRel::RowsMinus1 => match r {
+            0 => (1, 1),
+            1 => (0, 0),
+            _ => (c, r - 1),
+        },
+        SizeRel::ColsMinus1 => match c {
+            0 => (1, 1),
+            1 => (0, 0),
+            _ => (c - 1, r),
+        },
         SizeRel::Transposed => (r, c),
         SizeRel::Flat => {
             if c * r == 0 {
